@@ -55,6 +55,17 @@ def _make_module(tag):
     def hook(params):
         LOG.append(('hook', tag, params['name'], params.get('model')))
 
+    class _Callable:
+        def __call__(self, params):
+            hook(params)
+
+        def method(self, params):
+            hook(params)
+    import functools
+    mod.hook_obj = _Callable()                       # hooks may be any callable the name denotes:
+    mod.hook_method = _Callable().method             # a callable object, a bound method, a partial
+    mod.hook_partial = functools.partial(lambda extra, params: hook(params), 0)
+
     for c_ in (DModel, DSystem, DAgent):
         c_._mod = name
     mod.DModel, mod.DSystem, mod.DAgent, mod.hook = DModel, DSystem, DAgent, hook
@@ -65,8 +76,9 @@ def _make_module(tag):
 def build(desc):
     mm = 'replayers.dmod_' + desc['mod']
     data = {'model': {'name': 'DModel', 'module': mm, 'params': {'seed': 3}}, 'systems': [], 'agents': []}
+    hk = desc.get('hookkind', 'hook')
     if desc['pre']:
-        data['pre_model_decode'] = {'func': 'hook', 'module': mm, 'params': {'name': 'pre_model'}}
+        data['pre_model_decode'] = {'func': hk, 'module': mm, 'params': {'name': 'pre_model'}}
     if desc['post']:
         data['post_model_decode'] = {'func': 'hook', 'module': mm, 'params': {'name': 'post_model'}}
     for k, s in enumerate(desc['systems']):
@@ -78,7 +90,7 @@ def build(desc):
         if s.get('preset'):        # a description that already carries the entry decode injects: the injected one wins
             d['params']['model'] = None
         if s['pre']:
-            d['pre_system_init'] = {'func': 'hook', 'module': sm, 'params': {'name': f'pre_sys{k}'}}
+            d['pre_system_init'] = {'func': hk, 'module': sm, 'params': {'name': f'pre_sys{k}'}}
         if s['post']:
             d['post_system_init'] = {'func': 'hook', 'module': sm, 'params': {'name': f'post_sys{k}'}}
         data['systems'].append(d)
@@ -91,7 +103,7 @@ def build(desc):
         if g['pre']:
             d['pre_agent_init'] = {'func': 'hook', 'module': gm, 'params': {'name': f'pre_grp{k}'}}
         if g['post']:
-            d['post_agent_init'] = {'func': 'hook', 'module': gm, 'params': {'name': f'post_grp{k}'}}
+            d['post_agent_init'] = {'func': hk, 'module': gm, 'params': {'name': f'post_grp{k}'}}
         data['agents'].append(d)
     return data
 
@@ -226,6 +238,8 @@ def histories(seed, budget, prop='C18'):
                  groups=[dict(g, mod='b') for g in full['groups']])
     yield ('decode', [full, other, full])
     yield ('decode_json', [full, other])
+    for hk in ('hook_obj', 'hook_method', 'hook_partial'):
+        yield ('decode', [dict(full, hookkind=hk)])
     yield ('decode_json', [dict(full, groups=[dict(n=0, pre=True, post=True, mod='a'), dict(n=2, pre=True, post=False, mod='a'),
                                               dict(n=0, pre=False, post=True, mod='b')])])
     yield ('decode', [other, full])
